@@ -16,6 +16,7 @@ import (
 	"testing/synctest"
 	"time"
 
+	"github.com/markusressel/fan2go/internal/configuration"
 	"github.com/markusressel/fan2go/internal/verifshim/env"
 	"github.com/markusressel/fan2go/internal/verifshim/mc"
 )
@@ -24,11 +25,13 @@ type vxC16Case struct {
 	Parallel bool  `json:"parallel"`
 	Delays   []int `json:"delaysMs"` // start delay of fan i relative to the previous start (-1 = when the previous fan finished its analysis)
 	Settle   []int `json:"settle"`   // per fan: 0 steady at once, 1 settles after 15 s, 2 after 40 s
-	Kinds    []int `json:"kinds"`    // per fan: 0 nothing stored, 1 nothing stored + pwmMap configured (no sweep, measurement only), 2 only the RPM curve stored (sweep only)
+	Kinds    []int `json:"kinds"`    // per fan: 0 nothing stored, 1 nothing stored + pwmMap configured (no sweep, measurement only), 2 only the RPM curve stored (sweep only), 3 file fan (sweep only)
+	// RespDelay: fanResponseDelay in seconds (-1 = the default 2); 0 makes a whole analysis take ~13 s instead of ~9 min
+	RespDelay int `json:"respDelay"`
 }
 
 func (c vxC16Case) String() string {
-	return fmt.Sprintf("parallel=%v delaysMs=%v settle=%v kinds=%v", c.Parallel, c.Delays, c.Settle, c.Kinds)
+	return fmt.Sprintf("parallel=%v delaysMs=%v settle=%v kinds=%v respDelay=%d", c.Parallel, c.Delays, c.Settle, c.Kinds, c.RespDelay)
 }
 
 type vxIv struct {
@@ -45,6 +48,9 @@ func vxC16Exec(t *testing.T, c vxC16Case) (ivs []vxIv, fail [2]string) {
 	defer os.Remove(db)
 	synctest.Test(t, func(t *testing.T) {
 		vxRunConfigGlobals(c.Parallel, 1, 10)
+		if c.RespDelay >= 0 {
+			configuration.CurrentConfig.FanResponseDelay = c.RespDelay
+		}
 		t0 := time.Now()
 		ivs = make([]vxIv, k)
 		worlds := make([]*vxRunWorld, k)
@@ -61,6 +67,8 @@ func vxC16Exec(t *testing.T, c vxC16Case) (ivs []vxIv, fail [2]string) {
 					cfg.ConfMap = true
 				case 2:
 					cfg.Stored, cfg.CurveOnly = true, true
+				case 3:
+					cfg.Kind = "file"
 				}
 			}
 			w := vxRunBuild(cfg, fmt.Sprintf("fan%d", i), fs, fmt.Sprintf("hwmon%d", i), db, false)
@@ -261,16 +269,20 @@ func TestVX_C16(t *testing.T) {
 			}
 			return
 		}
-		cases = append(cases, vxC16Case{Parallel: false, Delays: delays, Settle: settle})
+		cases = append(cases, vxC16Case{Parallel: false, Delays: delays, Settle: settle, RespDelay: -1})
+		if allSteady(settle) {
+			// short analyses (fanResponseDelay 0): waiting times are long relative to one analysis
+			cases = append(cases, vxC16Case{Parallel: false, Delays: delays, Settle: settle, RespDelay: 0})
+		}
 		// the same schedule with mixed fan kinds: a configured pwmMap (measurement without sweep) and a fan whose RPM curve is
 		// stored but whose PWM map is not (sweep without measurement); every assignment for 2 fans, rotations of (1,2,0) beyond
 		if allSteady(settle) || mc.Thorough() {
 			n := len(settle)
 			if n == 2 {
-				for a := 0; a < 3; a++ {
-					for b := 0; b < 3; b++ {
+				for a := 0; a < 4; a++ {
+					for b := 0; b < 4; b++ {
 						if a+b > 0 {
-							cases = append(cases, vxC16Case{Parallel: false, Delays: delays, Settle: settle, Kinds: []int{a, b}})
+							cases = append(cases, vxC16Case{Parallel: false, Delays: delays, Settle: settle, Kinds: []int{a, b}, RespDelay: -1})
 						}
 					}
 				}
@@ -278,9 +290,9 @@ func TestVX_C16(t *testing.T) {
 				for r := 0; r < 3; r++ {
 					kinds := make([]int, n)
 					for i := range kinds {
-						kinds[i] = []int{1, 2, 0}[(i+r)%3]
+						kinds[i] = []int{1, 2, 0, 3}[(i+r)%4]
 					}
-					cases = append(cases, vxC16Case{Parallel: false, Delays: delays, Settle: settle, Kinds: kinds})
+					cases = append(cases, vxC16Case{Parallel: false, Delays: delays, Settle: settle, Kinds: kinds, RespDelay: -1})
 				}
 			}
 		}
